@@ -5,6 +5,7 @@ import (
 	"go/constant"
 	"go/token"
 	"go/types"
+	"golang.org/x/tools/go/cfg"
 )
 
 // evalExpr evaluates e with go/constant, taking free operands from lookup. ok=false if e contains anything else.
@@ -143,4 +144,209 @@ func asciiBoundary(info *types.Info, cond ast.Expr, isChar func(ast.Expr) bool) 
 		return false, "predicate " + exprStr(cond) + " is false at U+10FFFF"
 	}
 	return true, ""
+}
+
+// ---------------------------------------------------------------------------
+// small abstract path evaluator (E-const)
+
+type absKind int
+
+const (
+	absUnknown absKind = iota
+	absConst           // N
+	absSym             // symbolic value Sym, optionally divided by 100 (class-of)
+	absHelperT         // exterrors.SMTPCode(e, t, p): Sym = e, N = class(t), M = class(p)
+	absHelperE         // exterrors.SMTPEnchCode(e, lit): Sym = e
+)
+
+type absVal struct {
+	K    absKind
+	N, M int64
+	Sym  string // identity of the symbolic source
+	Root string // root object the symbolic source derives from (same root ⇒ supplied together)
+	Div  bool   // value is Sym/100
+}
+
+func (a absVal) String() string {
+	switch a.K {
+	case absConst:
+		return itoa(int(a.N))
+	case absSym:
+		if a.Div {
+			return "class-of(" + a.Sym + ")"
+		}
+		return a.Sym
+	case absHelperT:
+		return "SMTPCode(" + a.Sym + "," + itoa(int(a.N)) + "xx," + itoa(int(a.M)) + "xx)"
+	case absHelperE:
+		return "SMTPEnchCode(" + a.Sym + ")"
+	}
+	return "unknown"
+}
+
+type decision struct {
+	Cond ast.Expr
+	Succ int // 0 = true edge
+}
+
+// pathEval enumerates the acyclic paths of flow from entry to target (a point), interpreting assignments to the
+// tracked lvalues (keyed by canonical expression text, e.g. "code", "enchCode", "res.Code"). visit is called
+// with the environment at the target and the branch decisions taken. Returns false if the path budget is exceeded.
+type pathEvaluator struct {
+	f       *Flow
+	eval    func(e ast.Expr, env map[string]absVal) absVal
+	tracked func(lhs ast.Expr) (string, bool)
+	budget  int
+	// constOnly: assignments of non-constant values are ignored (used to judge defaults)
+	constOnly bool
+}
+
+func (pe *pathEvaluator) run(target func(Pt) bool, init map[string]absVal, visit func(pt Pt, env map[string]absVal, dec []decision)) bool {
+	f := pe.f
+	onPath := map[*cfg.Block]bool{}
+	steps := 0
+	ok := true
+	var walk func(b *cfg.Block, i int, env map[string]absVal, dec []decision)
+	walk = func(b *cfg.Block, i int, env map[string]absVal, dec []decision) {
+		if !ok {
+			return
+		}
+		steps++
+		if steps > pe.budget {
+			ok = false
+			return
+		}
+		for ; i < len(b.Nodes); i++ {
+			pt := Pt{b, i}
+			if target(pt) {
+				visit(pt, env, dec)
+				// continue: a later point may also be a target (e.g. several returns are in different blocks anyway)
+			}
+			env = pe.transfer(b.Nodes[i], env)
+		}
+		if endPt := (Pt{b, len(b.Nodes)}); target(endPt) {
+			visit(endPt, env, dec)
+		}
+		if len(b.Succs) == 0 {
+			return
+		}
+		cond, isCase := f.Cond(b)
+		for si, s := range b.Succs {
+			if onPath[s] {
+				continue
+			}
+			d := dec
+			if cond != nil && !isCase {
+				// prune infeasible edges when the condition is decidable
+				if v, okc := evalExpr(f.Info, cond, func(e ast.Expr) (constant.Value, bool) {
+					if k, isT := pe.tracked(e); isT {
+						if a, has := env[k]; has && a.K == absConst {
+							return constant.MakeInt64(a.N), true
+						}
+					}
+					return nil, false
+				}); okc && v.Kind() == constant.Bool {
+					if constant.BoolVal(v) != (si == 0) {
+						continue
+					}
+				}
+				d = append(append([]decision{}, dec...), decision{cond, si})
+			}
+			onPath[s] = true
+			ne := make(map[string]absVal, len(env))
+			for k, v := range env {
+				ne[k] = v
+			}
+			walk(s, 0, ne, d)
+			onPath[s] = false
+		}
+	}
+	env := map[string]absVal{}
+	for k, v := range init {
+		env[k] = v
+	}
+	onPath[f.G.Blocks[0]] = true
+	walk(f.G.Blocks[0], 0, env, nil)
+	return ok
+}
+
+func (pe *pathEvaluator) transfer(n ast.Node, env map[string]absVal) map[string]absVal {
+	set := func(k string, v absVal) {
+		if pe.constOnly && v.K != absConst {
+			return
+		}
+		env[k] = v
+	}
+	switch s := n.(type) {
+	case *ast.AssignStmt:
+		if len(s.Lhs) == len(s.Rhs) {
+			for i, l := range s.Lhs {
+				if k, ok := pe.tracked(l); ok {
+					if s.Tok == token.ASSIGN || s.Tok == token.DEFINE {
+						set(k, pe.eval(s.Rhs[i], env))
+					} else {
+						set(k, absVal{K: absUnknown})
+					}
+				}
+			}
+		} else if len(s.Rhs) == 1 {
+			for i, l := range s.Lhs {
+				if k, ok := pe.tracked(l); ok {
+					v := absVal{K: absUnknown}
+					if i == 0 {
+						v = pe.eval(s.Rhs[0], env)
+						if v.K == absUnknown {
+							v = absVal{K: absSym, Sym: exprStr(s.Rhs[0]), Root: rootName(s.Rhs[0])}
+						}
+					}
+					set(k, v)
+				}
+			}
+		}
+	case *ast.ValueSpec: // go/cfg adds each var spec of a DeclStmt as its own node
+		for i, nm := range s.Names {
+			if k, ok := pe.tracked(nm); ok {
+				if i < len(s.Values) {
+					set(k, pe.eval(s.Values[i], env))
+				} else if len(s.Values) == 0 {
+					set(k, absVal{K: absConst, N: 0}) // zero value
+				} else {
+					set(k, absVal{K: absUnknown})
+				}
+			}
+		}
+	case *ast.IncDecStmt:
+		if k, ok := pe.tracked(s.X); ok {
+			set(k, absVal{K: absUnknown})
+		}
+	}
+	return env
+}
+
+// rootName: the left-most identifier of the first argument / operand of e (used to group values supplied together).
+func rootName(e ast.Expr) string {
+	for {
+		switch x := ast.Unparen(e).(type) {
+		case *ast.CallExpr:
+			if len(x.Args) == 0 {
+				e = x.Fun
+			} else {
+				e = x.Args[0]
+			}
+		case *ast.SelectorExpr:
+			e = x.X
+		case *ast.IndexExpr:
+			e = x.X
+		case *ast.TypeAssertExpr:
+			e = x.X
+		case *ast.StarExpr:
+			e = x.X
+		case *ast.UnaryExpr:
+			e = x.X
+		case *ast.Ident:
+			return x.Name
+		default:
+			return exprStr(e)
+		}
+	}
 }
